@@ -4,6 +4,7 @@ import (
 	"fmt"
 	"go/ast"
 	"go/token"
+	"go/types"
 	"strings"
 
 	"golang.org/x/tools/go/ssa"
@@ -121,6 +122,9 @@ func runC11(c *Ctx, r *Report) {
 	c11Results(c, r)
 	// R4
 	c03DecoderAdds(c, r)
+	// the partial File holds complete messages *as Decode delivers them*: component expansion happens
+	// when a message is stored, not in a pass that an error return skips
+	c18ExpansionCalled(c, r)
 }
 
 // c11FillShape: the returned error is phi[nil, err] where the nil edge is dominated by n > 0.
@@ -281,6 +285,22 @@ func c11Sentinel(c *Ctx, r *Report) {
 		return
 	}
 	c.moduleFuncs()
+	// identity of the sentinel: errors.Is(err, errReadSize) must mean "err is (or wraps) exactly this
+	// value". A method Is on the sentinel's type widens the match to whatever that method accepts, and
+	// a comparable struct type makes every equal-valued literal the sentinel: (a) no Is method on the
+	// type; (b) no composite literal of the type outside the sentinels' own initialisers is built with
+	// only constants (such a value could compare equal).
+	if pt, ok := g.Type().(*types.Pointer); ok {
+		st := pt.Elem()
+		ms := c.prog.MethodSets.MethodSet(st)
+		hasIs := ms.Lookup(c.fit.Types, "Is") != nil || ms.Lookup(nil, "Is") != nil
+		for i := 0; i < ms.Len(); i++ {
+			if ms.At(i).Obj().Name() == "Is" {
+				hasIs = true
+			}
+		}
+		r.check(!hasIs, "C11-R3-sentinel", "errReadSize/identity", c.pos(g.Pos()), "the sentinel's type has no Is method: errors.Is matches this value only", "the type of errReadSize defines an Is method: errors.Is(err, errReadSize) now also accepts other errors of that type, so DecodeChained can end a chain silently on a reader fault that is not end of input")
+	}
 	for _, fn := range c.globalUsers[g] {
 		if fn.Synthetic != "" && fn.Name() == "init" {
 			continue
